@@ -32,11 +32,13 @@ LEAN_MODULES = ['MlModel.Properties.C18']
 TRUSTED = [
     'modelled, not verified: CPython dict/list/tuple semantics (insertion order, negative indices, copy.copy), '
     'structural pattern matching in set/__getitem__/_default_tree, Mapping mixin items()/keys() — written out in Model/Tree.lean',
-    'ndarray leaves are opaque in the model (never indexed into); key_paths= views are not modelled',
+    'ndarrays are opaque leaves in the Lean model: operations whose path indexes INTO an ndarray are skipped by the model; '
+    'the real code still runs the copying ones and the ORACLE alone judges them (original arrays unchanged at every depth, '
+    'get-after-set of an element, frame) — for those operations there is no theorem and no correspondence; key_paths= views are not modelled',
 ]
 ASSUMPTIONS = [
     'leaves are int/str/None/1-D int ndarray; dict keys are str/int/Literal objects; the view is built without key_paths',
-    'no path indexes inside an ndarray leaf; no cyclic input data (in-place sets never store an ancestor)',
+    'no cyclic input data (in-place sets never store an ancestor); ndarray elements are assigned ints only where the get/set law is claimed',
 ]
 RULE = ('heaps of <= ~25 cells (trees of depth <= 4 of dict/list/tuple with int/str/None/ndarray leaves, ~15% aliased '
         'sub-trees, NullMap or scalar roots now and then) with 1..5 operations drawn from copy-set / in-place set / '
@@ -44,6 +46,11 @@ RULE = ('heaps of <= ~25 cells (trees of depth <= 4 of dict/list/tuple with int/
         'existing, fresh (dict key, append, append+deeper), negative / out-of-range / wrongly-typed, with SELF, SKIP '
         'and Literal at head or inside, ~12% malformed (misaligned multi-key values, empty keys with values, strict views); '
         'small-exhaustive part: every path of length <= 2 over a fixed key alphabet on 6 fixed trees; '
+        'plus two families: (a) trees with 1-D/2-D ndarray nodes (also as view root, also shared) and copying ops whose paths index '
+        'into them (existing / negative / out-of-range index, tuple-of-ints key) — oracle only; (b) iterate a view, derive a view by '
+        'a copying set/update that changes the set of leaf paths (fresh key, append, leaf->subtree, subtree->leaf), iterate the '
+        'derived view object itself, chains of these. Along a sequence the SAME view objects are used (the view an op returned is '
+        'the one later ops read) and the items oracle is evaluated on every source and derived view object; '
         'non-trivial = at least one successful copying set/update/apply on a container root of depth >= 2')
 
 
